@@ -36,12 +36,13 @@ type caseT struct {
 	Order []string `json:"order"`
 	T     int      `json:"T"`
 	Drain bool     `json:"drain"`
+	Reps  int      `json:"reps"` // executions of this case (the code iterates Go maps: repeated runs may differ)
 }
 
 type metricsMock struct{}
 
 func (metricsMock) SetRelayNodeErrorMetric(chainId, apiInterface, providerAddress, method string) {}
-func (metricsMock) GetChainIdAndApiInterface() (string, string)                                  { return "LAV1", "rest" }
+func (metricsMock) GetChainIdAndApiInterface() (string, string)                                   { return "LAV1", "rest" }
 
 type senderMock struct{ pm chainlib.ProtocolMessage }
 
@@ -119,86 +120,92 @@ func main() {
 	out := hx.NewOut(os.Args[2])
 	retries := lavaprotocol.NewRelayRetriesManager()
 	for ci, c := range cases {
-		n := len(c.Order)
-		chainMsg, err := parser.ParseMsg("/cosmos/base/tendermint/v1beta1/blocks/17", nil, http.MethodGet, nil, extensionslib.ExtensionInfo{LatestBlock: 0})
-		if err != nil {
-			hx.Die("ParseMsg: %v", err)
+		reps := c.Reps
+		if reps < 1 {
+			reps = 1
 		}
-		headers := map[string]string{
-			common.CROSS_VALIDATION_HEADER_MAX_PARTICIPANTS:    fmt.Sprint(n),
-			common.CROSS_VALIDATION_HEADER_AGREEMENT_THRESHOLD: fmt.Sprint(c.T),
-		}
-		pm := chainlib.NewProtocolMessage(chainMsg, headers, nil, "dapp", "127.0.0.1")
-		ctx, cancel := context.WithCancel(context.Background()) // no deadline: every response is queued before the wait
-		used := lavasession.NewUsedProviders(nil)
-		pol := relaypolicy.NewPolicy(relaypolicy.PolicyConfig{MaxRetries: 10, RelayRetryLimit: 2, DisableBatchRetry: true, SendRelayAttempts: 3})
-		sm, err := relaycore.NewUnifiedRelayStateMachine(ctx, used, &senderMock{pm: pm}, pm, nil, false,
-			relaycore.StateMachineConfig{MaxRetries: 10, SendRelayAttempts: 3}, pol)
-		if err != nil {
-			hx.Die("state machine: %v", err)
-		}
-		if sm.GetSelection() != relaycore.CrossValidation {
-			hx.Die("selection is not cross-validation")
-		}
-		rp := relaycore.NewRelayProcessor(ctx, sm.GetCrossValidationParams(), relaycore.NewConsistency("LAV1", 0), metricsMock{}, metricsMock{}, retries, sm)
-		sessions := lavasession.ConsumerSessionsMap{}
-		for i := 0; i < n; i++ {
-			sessions[fmt.Sprintf("lava@p%d", i)] = &lavasession.SessionInfo{}
-		}
-		used.AddUsed(sessions, nil)
-		for i, k := range c.Order {
-			p := fmt.Sprintf("lava@p%d", i)
-			resp := response(k, p, i)
-			used.RemoveUsed(p, lavasession.NewRouterKey(nil), resp.Err)
-			rp.SetResponse(resp)
-		}
-		waitErr := rp.WaitForResults(ctx)
-		if waitErr != nil {
-			hx.Die("WaitForResults returned %v although every response was queued", waitErr)
-		}
-		met, _ := rp.HasRequiredNodeResults(1)
-		count := func() (M, int, int, int, int) {
-			succ, nodeErrs, protoErrs := rp.GetResultsData()
-			g := M{"d1": 0, "d2": 0, "d3": 0}
-			e, other := 0, 0
-			for _, r := range succ {
+		for rep := 0; rep < reps; rep++ {
+			n := len(c.Order)
+			chainMsg, err := parser.ParseMsg("/cosmos/base/tendermint/v1beta1/blocks/17", nil, http.MethodGet, nil, extensionslib.ExtensionInfo{LatestBlock: 0})
+			if err != nil {
+				hx.Die("ParseMsg: %v", err)
+			}
+			headers := map[string]string{
+				common.CROSS_VALIDATION_HEADER_MAX_PARTICIPANTS:    fmt.Sprint(n),
+				common.CROSS_VALIDATION_HEADER_AGREEMENT_THRESHOLD: fmt.Sprint(c.T),
+			}
+			pm := chainlib.NewProtocolMessage(chainMsg, headers, nil, "dapp", "127.0.0.1")
+			ctx, cancel := context.WithCancel(context.Background()) // no deadline: every response is queued before the wait
+			used := lavasession.NewUsedProviders(nil)
+			pol := relaypolicy.NewPolicy(relaypolicy.PolicyConfig{MaxRetries: 10, RelayRetryLimit: 2, DisableBatchRetry: true, SendRelayAttempts: 3})
+			sm, err := relaycore.NewUnifiedRelayStateMachine(ctx, used, &senderMock{pm: pm}, pm, nil, false,
+				relaycore.StateMachineConfig{MaxRetries: 10, SendRelayAttempts: 3}, pol)
+			if err != nil {
+				hx.Die("state machine: %v", err)
+			}
+			if sm.GetSelection() != relaycore.CrossValidation {
+				hx.Die("selection is not cross-validation")
+			}
+			rp := relaycore.NewRelayProcessor(ctx, sm.GetCrossValidationParams(), relaycore.NewConsistency("LAV1", 0), metricsMock{}, metricsMock{}, retries, sm)
+			sessions := lavasession.ConsumerSessionsMap{}
+			for i := 0; i < n; i++ {
+				sessions[fmt.Sprintf("lava@p%d", i)] = &lavasession.SessionInfo{}
+			}
+			used.AddUsed(sessions, nil)
+			for i, k := range c.Order {
+				p := fmt.Sprintf("lava@p%d", i)
+				resp := response(k, p, i)
+				used.RemoveUsed(p, lavasession.NewRouterKey(nil), resp.Err)
+				rp.SetResponse(resp)
+			}
+			waitErr := rp.WaitForResults(ctx)
+			if waitErr != nil {
+				hx.Die("WaitForResults returned %v although every response was queued", waitErr)
+			}
+			met, _ := rp.HasRequiredNodeResults(1)
+			count := func() (M, int, int, int, int) {
+				succ, nodeErrs, protoErrs := rp.GetResultsData()
+				g := M{"d1": 0, "d2": 0, "d3": 0}
+				e, other := 0, 0
+				for _, r := range succ {
+					var data []byte
+					if r.Reply != nil {
+						data = r.Reply.Data
+					}
+					switch l := label(data); l {
+					case "empty":
+						e++
+					case "other":
+						other++
+					default:
+						g[l] = g[l].(int) + 1
+					}
+				}
+				return g, e, len(nodeErrs), len(protoErrs), other
+			}
+			g0, e0, ne0, pe0, _ := count()
+			cnt0 := e0 + ne0 + pe0 + g0["d1"].(int) + g0["d2"].(int) + g0["d3"].(int)
+			if c.Drain {
+				rp.NodeResults()
+			}
+			g, e, ne, pe, other := count()
+			res, perr := rp.ProcessingResult()
+			r, cv := "error", 0
+			if perr == nil {
 				var data []byte
-				if r.Reply != nil {
-					data = r.Reply.Data
+				if res != nil && res.Reply != nil {
+					data = res.Reply.Data
 				}
-				switch l := label(data); l {
-				case "empty":
-					e++
-				case "other":
-					other++
-				default:
-					g[l] = g[l].(int) + 1
+				r = label(data)
+				if res != nil {
+					cv = res.CrossValidation
 				}
 			}
-			return g, e, len(nodeErrs), len(protoErrs), other
+			out.Emit(M{"ev": "case", "i": ci, "rep": rep, "order": c.Order, "T": c.T, "drain": c.Drain, "n": n,
+				"g": g, "e": e, "ne": ne, "pe": pe, "other": other, "cnt": e + ne + pe + g["d1"].(int) + g["d2"].(int) + g["d3"].(int),
+				"early": met && cnt0 < n, "met": met, "waitErr": waitErr != nil, "res": r, "cv": cv})
+			cancel()
 		}
-		g0, e0, ne0, pe0, _ := count()
-		cnt0 := e0 + ne0 + pe0 + g0["d1"].(int) + g0["d2"].(int) + g0["d3"].(int)
-		if c.Drain {
-			rp.NodeResults()
-		}
-		g, e, ne, pe, other := count()
-		res, perr := rp.ProcessingResult()
-		r, cv := "error", 0
-		if perr == nil {
-			var data []byte
-			if res != nil && res.Reply != nil {
-				data = res.Reply.Data
-			}
-			r = label(data)
-			if res != nil {
-				cv = res.CrossValidation
-			}
-		}
-		out.Emit(M{"ev": "case", "i": ci, "order": c.Order, "T": c.T, "drain": c.Drain, "n": n,
-			"g": g, "e": e, "ne": ne, "pe": pe, "other": other, "cnt": e + ne + pe + g["d1"].(int) + g["d2"].(int) + g["d3"].(int),
-			"early": met && cnt0 < n, "met": met, "waitErr": waitErr != nil, "res": r, "cv": cv})
-		cancel()
 	}
 	out.Close()
 }
